@@ -50,6 +50,7 @@ package bcl
 //@   loop 1 assume operands_on_stack: vm.tos >= needOf(curop(vm))
 //@   loop 1 assume slot_live: (curop(vm) == opGETLOCAL ==> operand1(vm) < uint64(vm.tos)) && (curop(vm) == opSETLOCAL ==> operand1(vm) + 1 < uint64(vm.tos))
 //@   loop 1 assume popn_within: curop(vm) == opPOPN ==> operand1(vm) <= uint64(vm.tos)
+//@   loop 1 assume backward_jump_stays_in_code: curop(vm) == opLOOP ==> jumpdist(vm) <= vm.pc + 3
 //@   loop 1 assume in_block: (curop(vm) == opENDBLOCK || curop(vm) == opSETFIELD || curop(vm) == opGETFIELD) ==> vm.blockTos >= 1
 //
 // --- what one iteration does (relations between the loop head and the back edge) ---
@@ -62,6 +63,7 @@ package bcl
 //@   loop 1 step [C10,C14] pc_uu: fmtOf(instr) == FUU() ==> vm.pc == prev(vm.pc + 1 + uvneed(vm.prog.code[vm.pc+1]) + uvneed(vm.prog.code[vm.pc+1+uvneed(vm.prog.code[vm.pc+1])]))
 //@   loop 1 step [C10,C14] pc_ub: fmtOf(instr) == FUB() ==> vm.pc == prev(vm.pc) + 2 + uvneed(prev(vm.prog.code[vm.pc+1]))
 //@   loop 1 step [C01,C10,C14] jump_forward: instr == opJUMP ==> vm.pc == prev(vm.pc + 3 + jumpdist(vm))
+//@   loop 1 step [C14] loop_jumps_backward: instr == opLOOP ==> vm.pc == prev(vm.pc + 3 - jumpdist(vm)) && vm.tos == prev(vm.tos)
 //@   loop 1 step [C01,C10,C14] jfalse_keeps_operand: instr == opJFALSE ==> vm.pc == prev(vm.pc + 3 + (falsey(top(vm)) ? jumpdist(vm) : 0)) && top(vm) == prev(top(vm))
 //@   loop 1 step [C10] untouched_below: instr != opSETLOCAL ==> (forall i int :: 0 <= i && i < prev(vm.tos) - needOf(instr) && i < vm.tos ==> vm.stack[i] == prev(vm.stack[i]))
 // statistics: exactly one instruction is counted per iteration, so the trace (one
